@@ -22,6 +22,16 @@ transformations:
     rule_conditions:
       - type: logsource
         category: failcat
+  - id: wrap
+    type: nest
+    items:
+      - id: nst
+        type: set_state
+        key: index
+        val: nestwin
+        rule_conditions:
+          - type: logsource
+            category: nestcat
   - id: map
     type: field_name_mapping
     mapping:
@@ -40,6 +50,8 @@ def rule_doc(kind: str, pos: int) -> dict:
         d["detection"]["condition"] = ["sel", "not sel"]
     elif kind == "okstate":
         d["logsource"]["product"] = "windows"
+    elif kind == "oknest":
+        d["logsource"]["category"] = "nestcat"
     elif kind == "failP":
         d["logsource"]["category"] = "failcat"
     elif kind == "failPH":
@@ -120,8 +132,8 @@ def run(tier: str, seed: int) -> int:
     return chk.finish(
         evaluations=len(obs),
         distinct_nontrivial=nontrivial,
-        rule="TLC (Gen_C08) enumerates every sequence of 1..3 (thorough 4) rules over 7 kinds (one/two conditions, "
-        "pipeline-state-setting, failing in the pipeline, on an unresolved placeholder, on an unsupported value, on a "
+        rule="TLC (Gen_C08) enumerates every sequence of 1..3 (thorough 4) rules over 8 kinds (one/two conditions, "
+        "pipeline-state-setting at the top level and inside a nested pipeline, failing in the pipeline, on an unresolved placeholder, on an unsupported value, on a "
         "missing detection) x collect on/off x without / with a non-generating / generating correlation rule over rule 1, plus "
         "every sequence with a repeated kind once more with IDENTICAL documents per kind (equal rule objects failing with equal errors); every "
         "collection is converted with a stateful pipeline and output format and compared with per-rule fresh "
